@@ -13,7 +13,7 @@ EXPLANATION = (
     "segments whose blank runs are symbolic over {space, tab} vs their space twins."
 )
 BOUNDS = {
-    "quick": "(1) normalize on 3 free characters; 3 documents with 1 free character and symbolic line-ending spelling per line; (2a) 3 free characters "
+    "quick": "(1) normalize on 3 free characters; 4 documents with 1 free character and 2 line breaks whose spelling (LF/CRLF/CR) is symbolic per break; (2a) 3 free characters "
              "over {space, tab, >, -, 1, ., x, newline}; (2b) 10 segment layouts, blank runs of 1-2 symbolic characters",
     "thorough": "(1) 4 free characters; (2a) 4 free characters; (2b) 16 layouts, runs of 1-3 characters, second line added",
 }
@@ -306,11 +306,14 @@ def jobs(tier, seed):
                ["```", "<NL>", {"v": "a"}, "<NL>", "```", "<NL>", {"v": "b"}], ["> ", {"v": "a"}, "  ", "<NL>", "> b", "<NL>", "<NL>", "c"],
                ["[r]: /u", "<NL>", "'", {"v": "a"}, "<NL>", "t'", "<NL>", "<NL>", "[r]", "<NL>"], ["a|b", "<NL>", "-|-", "<NL>", {"v": "a"}, "|2", "<NL>"]]
     if tier == "quick":
-        le_docs = [[{"v": "a"}, "<NL>", "b", "<NL>"], ["- a", "<NL>", "<NL>", "  ", {"v": "a"}, "<NL>"], ["```", "<NL>", {"v": "a"}, "<NL>", "```", "<NL>", "b"]]
+        le_docs = [[{"v": "a"}, "<NL>", "b", "<NL>"], ["- a", "<NL>", "  ", {"v": "a"}, "<NL>"], ["```", "<NL>", {"v": "a"}, "<NL>", "```"], ["> ", {"v": "a"}, "<NL>", "<NL>", "b"]]
     for sc in le_docs:
         jobs.append({"harness": "line_endings", "params": {"cfg": JS, "scaffold": sc, "nlines": sc.count("<NL>"), "spec": spec},
                      "weight": 8, "cpu_cap": 2400, "wall_cap": 3600})
-    for sc in ([{"v": "a"}, "<NUL>", {"v": "b"}, "\n"], ["# <NUL>", {"v": "a"}, "\n\n`<NUL>`\n"], ["[", {"v": "a"}, "<NUL>](/u<NUL>)\n"]):
+    nul_docs = [[{"v": "a"}, "<NUL>", {"v": "b"}, "\n"], ["# <NUL>", {"v": "a"}, "\n\n`<NUL>`\n"], ["[", {"v": "a"}, "<NUL>](/u<NUL>)\n"]]
+    if tier == "quick":
+        nul_docs = [[{"v": "a"}, "<NUL>b\n"], ["# <NUL>", {"v": "a"}, "\n\n`<NUL>`\n"], ["[", {"v": "a"}, "<NUL>](/u<NUL>)\n"]]
+    for sc in nul_docs:
         jobs.append({"harness": "nul", "params": {"cfg": JS, "scaffold": sc, "spec": {}}, "weight": 6, "cpu_cap": 2400, "wall_cap": 3600})
     kt = 3 if tier == "quick" else 4
     tspec = {n: {"alphabet": TABALPHA} for n in "abcdefgh"}
